@@ -3,12 +3,25 @@ module github.com/smart-core-os/sc-golang/verifharness
 go 1.23
 
 require (
+	github.com/google/go-cmp v0.6.0
+	github.com/grpc-ecosystem/go-grpc-middleware/v2 v2.1.0
+	github.com/mennanov/fmutils v0.1.1
+	github.com/smart-core-os/sc-api/go v1.0.0-beta.51
 	github.com/smart-core-os/sc-golang v0.0.0
+	github.com/tanema/gween v0.0.0-20200427131925-c89ae23cc63c
+	go.uber.org/zap v1.21.0
+	golang.org/x/exp v0.0.0-20240823005443-9b4947da3948
+	google.golang.org/grpc v1.67.1
 	google.golang.org/protobuf v1.34.2
 )
 
-require github.com/smart-core-os/sc-api/go v1.0.0-beta.51
-
-require google.golang.org/grpc v1.67.1 // indirect
+require (
+	go.uber.org/atomic v1.9.0 // indirect
+	go.uber.org/multierr v1.9.0 // indirect
+	golang.org/x/net v0.29.0 // indirect
+	golang.org/x/sys v0.25.0 // indirect
+	golang.org/x/text v0.18.0 // indirect
+	google.golang.org/genproto/googleapis/rpc v0.0.0-20240930140551-af27646dc61f // indirect
+)
 
 replace github.com/smart-core-os/sc-golang => /repo
